@@ -148,7 +148,7 @@ def sig_of(prefix, ex):
 
 def run_server(case, data, r):
     bare = case["target"] == "bare"
-    rig = memhttp.Rig(app=echo_app, bare=bare, bs=4096, **({"dictable": case.get("dictable", False)} if bare else {}))
+    rig = memhttp.Rig(app=echo_app, bare=bare, bs=4096, tymeout=100000.0, **({"dictable": case.get("dictable", False)} if bare else {}))
     pa = rig.connect()
     pb = rig.connect()
     frags = cap(httpgen.fragments(data, case["cuts"])) if data else [b""]
